@@ -196,6 +196,7 @@ class C16(Check):
                                                 'status_map': st.sampled_from([None, None, {'2001': 404, '-32601': 404}, {'2002': 409, '-32602': 422, '2001': 404}])}),
             'path': st.sampled_from(['/api', '/', '/api/v1', '/api', '/', '/api/v1', '/rpc/', '']),
             'late_error': st.integers(0, 3).map(lambda n: n == 0),
+            'naming': st.sampled_from(['plain', 'plain', 'plain', 'case-twins', 'dotted-twins']),
         })
 
     def corpus(self):
@@ -337,6 +338,11 @@ class C16(Check):
                         kw['component_name_prefix'] = a['prefix']
                 fn = mod.annotate(**kw)(fn)
             exposed = f'custom.name{i}' if ms['custom_name'] else pyname
+            naming = spec.get('naming', 'plain')
+            if naming == 'case-twins':        # distinct names that differ only in snake_case / camelCase spelling
+                exposed = ['get_user', 'getUser', 'add_user', 'addUser'][i % 4]
+            elif naming == 'dotted-twins':    # distinct dotted names with the same last segment (versioned APIs)
+                exposed = f'v{i + 1}.add'
             reg = registries[i % spec['endpoints']]
             if view:
                 cls = ns[f'View{i}']
@@ -527,6 +533,8 @@ class C16(Check):
             classes.append('methods>=2')
         if spec['generations'] >= 2:
             classes.append('generations>=2')
+        if spec.get('naming', 'plain') != 'plain' and len([m for m in spec['methods'] if m['flavour'] != 'view']) >= 2:
+            classes.append(f"naming/{spec['naming']}")
         if late and 'docstring' in spec['extractors'] and any(m['doc'] in ('full', 'raises') for m in spec['methods']):
             classes.append('late-error-class-named-in-docstring')
         if spec['spec_opts'].get('status_map') and not is_rpc:
